@@ -1,5 +1,5 @@
 rc_target("c08_thread_sched", flavour="sched", wrap=True)
-plan("C08", [T("c08_thread_sched", 2000, 25000)], min_nt=150,
+plan("C08", [T("c08_thread_sched", 3000, 30000)], min_nt=150,
      rule="client programs x schedules under the controlled scheduler with a virtual clock",
      technique="property-based testing over (program, schedule) pairs: controlled scheduler (locks, condvars, atomics, clock as decision points), history oracle",
      level_text="Generated search over multi-threaded programs and schedules: real library threads are serialised by a scheduler that owns every "
